@@ -6,6 +6,10 @@ props = [json.loads(l) for l in open(os.path.join(V, "properties.jsonl"))]
 
 EVAL_NOTE = "trusted: TLC; the renderer's canonical layout and path->line map; H2 hook events (emitted after each VM state change in the single evaluator goroutine); program families are bounded (sizes in the evidence)"
 CHECKS = {
+ "C10": dict(
+   technique="TLA+ member-table spec with total validator semantics (ZnBuiltins) enumerated by TLC; every invocation replayed in worker processes (panic/exit/hang are observations); member tables extracted from the Go sources bound to the spec's tables",
+   level="TLC enumerates receiver kind (11 value kinds + free functions/constructors) x every member of the spec's tables (+ an unknown member) x access {get,set,call,new} x all argument tuples of arity <= 2 over an 18-value boundary pool (281k invocations; quick: all of arity <= 1 plus a seeded 45000), with the outcome the validator patterns demand; plus random tuples of arity 3-4 per method, 37 operator/index/assignment/iteration/construction/throw/format forms on every receiver kind, and input-variable texts. Each case runs in a worker process and must end as a value or a Zn error - never a Go panic, a nil result, a process exit or a hang. The getter/setter/method tables and Register* calls extracted from the sources must equal the spec's tables (otherwise exit 2, unmodelled).",
+   note="trusted: TLC; worker-process isolation (recover + watchdog); boundary pool chosen from the validators' decision points; stdlib/http excluded (does not compile)", ref="5 C10"),
  "C14": dict(
    technique="TLA+ character-sequence spec of text operations (ZnText) and template scanner state machine with directive plans (ZnFmt) model-checked by TLC; TLC-enumerated texts/index pairs and templates replayed through the interpreter",
    level="Text: TLC enumerates all texts <= 4 over 5 encoded-width classes (ASCII, 2-byte, CJK, astral, combining mark) x index pairs from {-6,-2,-1,0..6} (78100 vectors; quick replays a seeded 30000): 长度/字数, 字符组, 分隔 by the empty text, 取样 (exactly characters i..j inside the documented range; elsewhere a catchable error or a run of whole characters) and the split/join law with the spec's pieces. Format: all templates <= 5 (thorough 6) over {text,{,},#,+,.,digit,E,%} plus long-precision templates are scanned by the spec's state machine (TLC checks all literal text is copied verbatim) and each is applied to 4 argument shapes: the result text or the error must agree.",
